@@ -37,6 +37,7 @@ type op struct {
 	K string `json:"k"`           // servestart | servestop | accept | serveconn | next | idle | finish | eof | hijack | hijackdone | userclose | closetwice
 	A int    `json:"a,omitempty"` // accept/serveconn: address index; others: index into the candidates (mod their number)
 	L int    `json:"l,omitempty"` // accept/servestop: index into the running loops (mod their number)
+	E bool   `json:"e,omitempty"` // accept/serveconn: Close of this connection's net.Conn returns an error
 }
 
 type desc struct {
@@ -101,18 +102,19 @@ var allIPs = []uint32{0x01010101, 0x01010102, 0x02020202, 0}
 // ---- scripted connection ----------------------------------------------------------------------------------
 
 type sconn struct {
-	id      int
-	addr    net.Addr
-	mu      sync.Mutex
-	cond    *sync.Cond
-	in      []byte
-	eof     bool
-	closed  bool
-	closes  int
-	out     []byte
-	onClose func()
-	blocked bool // a Read is parked waiting for input
-	hold    bool // a parked Read does not notice Close until released (a goroutine that is slow to be scheduled)
+	id       int
+	addr     net.Addr
+	mu       sync.Mutex
+	cond     *sync.Cond
+	in       []byte
+	eof      bool
+	closed   bool
+	closes   int
+	out      []byte
+	onClose  func()
+	closeErr bool // Close reports an error (after closing): a tls.Conn that cannot send close_notify, a custom net.Conn
+	blocked  bool // a Read is parked waiting for input
+	hold     bool // a parked Read does not notice Close until released (a goroutine that is slow to be scheduled)
 }
 
 func newConn(id int, a net.Addr) *sconn {
@@ -171,9 +173,13 @@ func (c *sconn) Close() error {
 	c.closes++
 	c.cond.Broadcast()
 	f := c.onClose
+	fail := c.closeErr
 	c.mu.Unlock()
 	if first && f != nil {
 		f()
+	}
+	if fail {
+		return errors.New("close: failed to send closeNotify alert (but connection was closed anyway)")
 	}
 	return nil
 }
@@ -351,27 +357,28 @@ const (
 )
 
 type connRec struct {
-	id       int
-	a        addrSpec
-	c        *sconn
-	loop     int // -1 = ServeConn
-	entered  atomic.Int32
-	enterCh  chan struct{}
-	exitCh   chan struct{}
-	idle     bool // inside the request loop, waiting for the next request (no handler running)
-	cmd      chan int
-	done     chan error // ServeConn result
-	srvConn  net.Conn   // ctx.Conn() as seen by the handler (the perIPConn wrapper when there is one)
-	hjConn   net.Conn
-	hjStart  chan struct{}
-	hjRel    chan struct{}
-	hjDone   chan struct{}
-	wrapped  bool // harness' expectation: MaxConnsPerIP > 0 and an IPv4 address
-	serving  bool // inside the request loop (controller's view)
-	hijacked bool
-	hjRun    bool
-	rejected bool
-	stuck    bool
+	id            int
+	a             addrSpec
+	c             *sconn
+	loop          int // -1 = ServeConn
+	entered       atomic.Int32
+	enterCh       chan struct{}
+	exitCh        chan struct{}
+	idle          bool // inside the request loop, waiting for the next request (no handler running)
+	cmd           chan int
+	done          chan error // ServeConn result
+	srvConn       net.Conn   // ctx.Conn() as seen by the handler (the perIPConn wrapper when there is one)
+	hjConn        net.Conn
+	hjStart       chan struct{}
+	hjRel         chan struct{}
+	hjDone        chan struct{}
+	wrapped       bool // harness' expectation: MaxConnsPerIP > 0 and an IPv4 address
+	liveAtArrival int
+	serving       bool // inside the request loop (controller's view)
+	hijacked      bool
+	hjRun         bool
+	rejected      bool
+	stuck         bool
 }
 
 type loopRec struct {
@@ -506,12 +513,20 @@ func (rp *replayer) emit(labels []string) {
 	rp.blocks = append(rp.blocks, fmt.Sprintf("(Blk %s %s)", hlib.List(labels), o))
 }
 
-func (rp *replayer) newConn(ai int, loop int) *connRec {
+func (rp *replayer) newConn(ai int, loop int, closeErr bool) *connRec {
 	a := addrs[ai%len(addrs)]
 	id := len(rp.conns)
 	r := &connRec{id: id, a: a, c: newConn(id, a.addr), loop: loop, enterCh: make(chan struct{}, 8), exitCh: make(chan struct{}, 8), cmd: make(chan int, 1),
 		done: make(chan error, 1), hjStart: make(chan struct{}), hjRel: make(chan struct{}), hjDone: make(chan struct{})}
 	r.wrapped = rp.d.MaxIP > 0 && a.ip != 0
+	r.c.closeErr = closeErr
+	if r.wrapped {
+		for _, o := range rp.conns {
+			if o.wrapped && o.a.ip == a.ip && o.entered.Load() > 0 && !o.c.isClosed() {
+				r.liveAtArrival++
+			}
+		}
+	}
 	r.c.feed(fmt.Sprintf("GET /%d HTTP/1.1\r\nHost: h\r\n\r\n", id))
 	rp.mu.Lock()
 	rp.conns = append(rp.conns, r)
@@ -607,14 +622,14 @@ func (rp *replayer) waitOutcome(r *connRec) (served bool) {
 	}
 }
 
-func (rp *replayer) accept(li, ai int) {
+func (rp *replayer) accept(li, ai int, closeErr bool) {
 	ks := rp.runningLoops()
 	if len(ks) == 0 {
 		return
 	}
 	k := ks[li%len(ks)]
 	l := rp.loops[k]
-	r := rp.newConn(ai, k)
+	r := rp.newConn(ai, k, closeErr)
 	before := l.ln.waiting.Load()
 	select {
 	case l.ln.ch <- r.c:
@@ -645,13 +660,13 @@ func (rp *replayer) accept(li, ai int) {
 		labels = append(labels, "LRejectIP "+n(r.id))
 	default:
 		r.rejected = true
-		labels = append(labels, "LOpenInc "+n(r.id), "LGetChFail "+n(r.id), "LRejectDec "+n(r.id), "LRejectConc "+n(r.id))
+		labels = append(labels, "LOpenInc "+n(r.id), "LGetChFail "+n(r.id), "LRejectDec "+n(r.id), "LRejectConc "+n(r.id)+" "+hlib.Bool(r.c.closeErr))
 	}
 	rp.emit(labels)
 }
 
-func (rp *replayer) serveConn(ai int) {
-	r := rp.newConn(ai, -1)
+func (rp *replayer) serveConn(ai int, closeErr bool) {
+	r := rp.newConn(ai, -1, closeErr)
 	rp.nSC++
 	go func() { r.done <- rp.s.ServeConn(r.c) }()
 	labels := []string{"LServeConn " + r.a.coq}
@@ -678,7 +693,7 @@ func (rp *replayer) serveConn(ai int) {
 		labels = append(labels, "LRejectIP "+n(r.id))
 	case err == fasthttp.ErrConcurrencyLimit:
 		r.rejected = true
-		labels = append(labels, "LTryAcquire "+n(r.id), "LAcquireFail "+n(r.id), "LRejectConc "+n(r.id))
+		labels = append(labels, "LTryAcquire "+n(r.id), "LAcquireFail "+n(r.id), "LRejectConc "+n(r.id)+" "+hlib.Bool(r.c.closeErr))
 	default:
 		// ServeConn returned something else without entering the handler: leave it to the comparison to complain
 		r.rejected = true
@@ -787,11 +802,11 @@ func (rp *replayer) end(r *connRec, how int) {
 			r.stuck = true
 		}
 	case endClose, endClose2:
-		labels = append(labels, "LUserClose "+n(r.id))
+		labels = append(labels, "LUserClose "+n(r.id)+" "+hlib.Bool(r.c.closeErr))
 		r.srvConn.Close()
 		if how == endClose2 {
 			r.srvConn.Close()
-			labels = append(labels, "LUserClose "+n(r.id))
+			labels = append(labels, "LUserClose "+n(r.id)+" "+hlib.Bool(r.c.closeErr))
 		}
 	}
 	r.serving = false
@@ -803,7 +818,7 @@ func (rp *replayer) end(r *connRec, how int) {
 			rp.stuck = true
 			r.stuck = true
 		}
-		labels = append(labels, first+n(r.id), "LCleanupOpen "+n(r.id), "LCloseAfter "+n(r.id), "LReleaseConc "+n(r.id))
+		labels = append(labels, first+n(r.id), "LCleanupOpen "+n(r.id), "LCloseAfter "+n(r.id)+" "+hlib.Bool(r.c.closeErr), "LReleaseConc "+n(r.id))
 	} else {
 		l := rp.loops[r.loop]
 		if l.running {
@@ -815,7 +830,7 @@ func (rp *replayer) end(r *connRec, how int) {
 		if how != endHijack && !waitFor(r.c.isClosed) {
 			rp.stuck = true
 		}
-		labels = append(labels, first+n(r.id), "LCleanupOpen "+n(r.id), "LCleanupConc "+n(r.id), "LCloseAfter "+n(r.id), "LWorkerRelease "+n(r.id))
+		labels = append(labels, first+n(r.id), "LCleanupOpen "+n(r.id), "LCleanupConc "+n(r.id), "LCloseAfter "+n(r.id)+" "+hlib.Bool(r.c.closeErr), "LWorkerRelease "+n(r.id))
 	}
 	rp.emit(labels)
 }
@@ -837,16 +852,16 @@ func (rp *replayer) hijackDone(r *connRec) {
 			rp.stuck = true
 		}
 	}
-	rp.emit([]string{"LHijackDone " + n(r.id)})
+	rp.emit([]string{"LHijackDone " + n(r.id) + " " + hlib.Bool(r.c.closeErr)})
 }
 
 // KeepHijackedConns: the hijack handler's connection is closed by the user (hijackConn.Close closes the server's connection object)
 func (rp *replayer) userClose(r *connRec, twice bool) {
-	labels := []string{"LUserClose " + n(r.id)}
+	labels := []string{"LUserClose " + n(r.id) + " " + hlib.Bool(r.c.closeErr)}
 	r.hjConn.Close()
 	if twice {
 		r.hjConn.Close()
-		labels = append(labels, "LUserClose "+n(r.id))
+		labels = append(labels, "LUserClose "+n(r.id)+" "+hlib.Bool(r.c.closeErr))
 	}
 	rp.emit(labels)
 }
@@ -862,9 +877,9 @@ func (rp *replayer) run() {
 		case "servestop":
 			rp.serveStop(o.L)
 		case "accept":
-			rp.accept(o.L, o.A)
+			rp.accept(o.L, o.A, o.E)
 		case "serveconn":
-			rp.serveConn(o.A)
+			rp.serveConn(o.A, o.E)
 		case "next":
 			rp.next(o.A)
 		case "idle":
@@ -959,7 +974,7 @@ func connRes(r *connRec) string {
 	if r.stuck || (r.entered.Load() == 0 && !r.rejected) {
 		st = -1
 	}
-	return fmt.Sprintf("(mkCR %s %s %s)", hlib.Z(int64(st)), hlib.Z(int64(r.entered.Load())), hlib.Z(int64(r.c.nCloses())))
+	return fmt.Sprintf("(mkCR %s %s %s %s)", hlib.Z(int64(st)), hlib.Z(int64(r.entered.Load())), hlib.Z(int64(r.c.nCloses())), hlib.Z(int64(r.liveAtArrival)))
 }
 
 func cfgCoq(d desc) string {
@@ -1087,6 +1102,7 @@ func runStress(d desc) hlib.Case {
 			x.c.feed(fmt.Sprintf("GET /%d HTTP/1.1\r\nHost: h\r\n\r\n", i))
 		}
 		x.c.eof = true
+		x.c.closeErr = r.Intn(4) == 0
 		x.c.onClose = func() {
 			mu.Lock()
 			if x.counted {
@@ -1145,7 +1161,7 @@ func runStress(d desc) hlib.Case {
 		if st == 0 && x.entered.Load() == 0 {
 			st = -1
 		}
-		res[i] = fmt.Sprintf("(mkCR %s %s %s)", hlib.Z(int64(st)), hlib.Z(int64(x.entered.Load())), hlib.Z(int64(x.c.nCloses())))
+		res[i] = fmt.Sprintf("(mkCR %s %s %s (-1)%%Z)", hlib.Z(int64(st)), hlib.Z(int64(x.entered.Load())), hlib.Z(int64(x.c.nCloses())))
 	}
 	mu.Lock()
 	pl := sortedIPs(peakLive)
@@ -1292,6 +1308,13 @@ func genReplay(r *rand.Rand) desc {
 		}
 		return r.Intn(len(addrs))
 	}
+	failing := r.Intn(3) == 0 // in a third of the cases many connections fail on Close
+	cerr := func() bool {
+		if failing {
+			return r.Intn(3) != 0
+		}
+		return r.Intn(6) == 0
+	}
 	if class >= 4 {
 		d.Ops = append(d.Ops, op{K: "servestart"})
 	}
@@ -1304,14 +1327,14 @@ func genReplay(r *rand.Rand) desc {
 		case x < 40:
 			switch {
 			case class < 4:
-				d.Ops = append(d.Ops, op{K: "serveconn", A: addr()})
+				d.Ops = append(d.Ops, op{K: "serveconn", A: addr(), E: cerr()})
 			case class < 8:
-				d.Ops = append(d.Ops, op{K: "accept", A: addr(), L: r.Intn(3)})
+				d.Ops = append(d.Ops, op{K: "accept", A: addr(), L: r.Intn(3), E: cerr()})
 			default:
 				if r.Intn(2) == 0 {
-					d.Ops = append(d.Ops, op{K: "serveconn", A: addr()})
+					d.Ops = append(d.Ops, op{K: "serveconn", A: addr(), E: cerr()})
 				} else {
-					d.Ops = append(d.Ops, op{K: "accept", A: addr(), L: r.Intn(3)})
+					d.Ops = append(d.Ops, op{K: "accept", A: addr(), L: r.Intn(3), E: cerr()})
 				}
 			}
 		case x < 58:
@@ -1358,8 +1381,10 @@ func gen(r *rand.Rand, i int) desc {
 func ops(s string) []op {
 	var out []op
 	for _, f := range strings.Fields(s) {
+		e := strings.HasSuffix(f, "!")
+		f = strings.TrimSuffix(f, "!")
 		parts := strings.Split(f, ":")
-		o := op{K: parts[0]}
+		o := op{K: parts[0], E: e}
 		if len(parts) > 1 {
 			o.A, _ = strconv.Atoi(parts[1])
 		}
@@ -1400,6 +1425,16 @@ func corpus() []desc {
 		// a third party closes the connection object while it is served (closeIdleConns, ctx.Conn().Close()): unregistered once
 		{Mode: "replay", Conc: 2, MaxIP: 1, Ops: ops("serveconn:0 idle:0 userclose:0 serveconn:0 idle:0 closetwice:0 serveconn:0 serveconn:1 idle:0 next:0 finish:0 finish:0")},
 		{Mode: "replay", Conc: 2, MaxIP: 1, EndStop: 1, Ops: ops("servestart accept:0 idle:0 closetwice:0 accept:0 idle:0 eof:0 accept:0 idle:0 userclose:0 accept:0 finish:0")},
+		// Close of the underlying connection returns an error: the per-IP unit is given back all the same - several such closes per address,
+		// then a fresh connection of that address is admitted (both entry points, MaxConnsPerIP 1..3, every kind of closing step)
+		{Mode: "replay", Conc: 2, MaxIP: 1, Ops: ops("serveconn:0! finish serveconn:0! eof serveconn:3! finish serveconn:0 finish")},
+		{Mode: "replay", Conc: 3, MaxIP: 2, EndStop: 1, Ops: ops("servestart accept:0! accept:0! accept:0 finish finish accept:3! accept:8! finish finish accept:0 accept:0 accept:0 finish finish")},
+		{Mode: "replay", Conc: 4, MaxIP: 3, Ops: ops("serveconn:0! serveconn:0! serveconn:0! serveconn:0! finish finish finish serveconn:0! serveconn:0 serveconn:0 serveconn:0 finish finish finish")},
+		{Mode: "replay", Conc: 2, MaxIP: 1, Ops: ops("serveconn:0! hijack hijackdone serveconn:0! hijack hijackdone serveconn:0 finish")},
+		{Mode: "replay", Conc: 2, MaxIP: 1, Keep: true, EndStop: 1, Ops: ops("servestart accept:0! hijack hijackdone userclose accept:0! hijack closetwice accept:0 finish")},
+		{Mode: "replay", Conc: 2, MaxIP: 1, EndStop: 1, Ops: ops("servestart accept:0! idle userclose accept:0! idle closetwice accept:0! idle eof accept:0 finish")},
+		{Mode: "replay", Conc: 1, MaxIP: 2, Ops: ops("serveconn:0 serveconn:0! serveconn:0! finish serveconn:0 serveconn:0 finish finish")},
+		{Mode: "replay", Conc: 1, MaxIP: 2, EndStop: 1, Ops: ops("servestart accept:0 accept:0! accept:3! finish accept:0 accept:8 finish finish")},
 		// workers are reused after release, and exit when their Serve has returned
 		{Mode: "replay", Conc: 2, MaxIP: 0, EndStop: 1, Ops: ops("servestart accept:0 accept:1 accept:2 finish:1 accept:2 servestop:0 finish:0 finish:0")},
 		// regression for the repaired finding peripconn-stale-close-hits-recycled-wrapper (bf2f4e5): a Close through an old reference
